@@ -758,6 +758,9 @@ fn write_evidence(
         ("wall_s", J::F((res.wall_s * 1000.0).round() / 1000.0)),
         ("violations", J::U(violations)),
     ]);
+    // the registered evidence file, plus a per-tier copy so that a quick run
+    // does not erase the record of the last thorough run
+    std::fs::write(dir.join(format!("{}.{}.json", prop.id(), tier.name())), j.pretty())?;
     std::fs::write(dir.join(format!("{}.json", prop.id())), j.pretty())
 }
 
